@@ -90,4 +90,18 @@ CHECKS = {
         "quick": {"shards": 16, "budget_s": 45, "min_evals": 100000, "min_counters": {"layouts_queried": 100}},
         "thorough": {"shards": 48, "parallel": 16, "budget_s": 400, "min_evals": 3000000, "extras": ["asan_store"]},
     },
+    "C04": {
+        "engine": "vp-store", "level": "fault_enumeration",
+        "rule": "three monitors share the shards: (a) histories of 30-90 appends with version conflicts and multi-event transactions that fail part-way (out-of-range timestamp on a later event); after every step partition scans (3 starts), stream scans (2 starts) and transaction reads from a random member are checked for group structure: every returned group holds exactly the events of one committed transaction that the stream filter and the start position allow, ids of failed transactions are a deny-list for scans, event lookup and transaction read; (b) the writer thread is held at hook write.after_event after each event of a multi-event transaction (between events, and between the last event and the commit record) while a reader completes a full round of all read APIs; (c) crash states: every byte cut of an appended tail (c05 generator) must reopen to a model prefix with nothing of a later transaction visible. non-trivial = distinct histories with a failed part-way write, distinct (case, transaction, event) hold points at which a reader round completed, and distinct crash cuts not on a transaction boundary",
+        "assumptions": A_COMMON + ["reverse scans are judged by C03's rule (a reverse group is a suffix of its transaction); C04 judges forward scans, lookups and transaction reads", "crash model: process crash, the prefix of bytes that reached write(2) survives"],
+        "quick": {"shards": 16, "budget_s": 30, "min_evals": 500, "min_counters": {"reader_rounds_while_writer_held": 1000, "failed_partial_writes": 50, "cuts.inside-event-of-multi-event-txn": 200}},
+        "thorough": {"shards": 64, "parallel": 16, "budget_s": 120, "min_evals": 10000},
+    },
+    "C05": {
+        "engine": "vp-store", "level": "fault_enumeration",
+        "rule": "a history is run to N (3-16) acknowledged transactions and shut down; a tail of K (1-4) transactions (single, multi-event, multi-stream) is appended; the live segment is read with the real seglog reader for record boundaries; for EVERY byte boundary c of the tail (tails <= 8 KiB: all cuts; longer tails in thorough: all cuts of the first 8 KiB then every record/field boundary +-2) the crash state = final directory with live-segment bytes [c,end) zeroed is reopened with the real code and audited (every partition and stream scanned, every event by id, latest queries) against the model prefixes M_N..M_{N+K}, with nothing of a later transaction visible; then 5-8 more transactions are appended and must be assigned the model's next sequences/versions (no gap, no reuse), followed by a full re-audit. non-trivial = distinct (case, cut) with the cut strictly inside a record or between records of one transaction",
+        "assumptions": A_COMMON + ["crash model: process crash, the prefix of bytes that reached write(2) survives (the segment file is fallocated, lost bytes read as zero); torn sectors / lost fsync on power failure are not modelled", "the tail lies in one segment (cases whose tail rolls over are skipped and counted)"],
+        "quick": {"shards": 48, "parallel": 16, "budget_s": 25, "min_evals": 3000, "min_counters": {"cuts.inside-event-of-multi-event-txn": 500, "cuts.inside-commit-record": 100}, "opts": {"parts": 4}},
+        "thorough": {"shards": 256, "parallel": 16, "budget_s": 40, "min_evals": 50000, "opts": {"parts": 8}},
+    },
 }
